@@ -78,6 +78,7 @@ ids('C17', {1701: 'len() > capacity() under inconsistent Eq', 1702: 'iteration c
              902: 'clone of dead data', 903: 'comparison of dead data', 904: 'dead/out-of-container data handed out', 905: 'borrow of dead data'})
 ids('C02', {611: '', 605: '', 1303: ''})
 ids('C12', {433: 'get_key_value exposes a key object that is not the stored one', 611: 'iteration exposes a key object that is not the stored one', 605: 'consuming iteration exposes objects that are not the stored ones', 207: '', 423: '', 402: '', 452: ''})
+ids('C19 C06', {1901: 'rendered length differs', 1902: 'rendered bytes differ', 1903: 'formatting returned Err', 1904: 'container changed by formatting', 202: ''})
 ids('C06', {804: 'set-algebra item outside the left operand', 1303: 'get_disjoint_mut reference outside the map', 501: 'returned reference points outside the container value'})
 
 # engine-level result classes that count for every property whose harness shows them
@@ -90,11 +91,11 @@ MEM_PROPS = {'C02', 'C03', 'C04', 'C05', 'C17', 'C18'}
 FAM = {}
 
 
-def fam(names, group, quick, deep, profiles=('rel',), dprofiles=None, unwind=None):
+def fam(names, group, quick, deep, profiles=('rel',), dprofiles=None, unwind=None, lto=False):
     for n in names.split():
         FAM[n] = dict(group=group, quick=[tuple(x) if isinstance(x, (list, tuple)) else (x,) for x in quick],
                       deep=[tuple(x) if isinstance(x, (list, tuple)) else (x,) for x in deep],
-                      profiles=profiles, dprofiles=dprofiles or profiles, unwind=unwind)
+                      profiles=profiles, dprofiles=dprofiles or profiles, unwind=unwind, lto=lto)
 
 
 fam('c01_insert c01_insert_kv', 'g_map', [1, 2, 3], [4, 5], profiles=('rel', 'dbg'))   # N=0: precondition unsatisfiable (overflow is C03)
@@ -153,8 +154,14 @@ fam('c17_set', 'g_liar', [(1, 1), (2, 1), (1, 2)], [(2, 2), (3, 2)])   # (2,2): 
 
 fam('c06_refs c06_refs_set', 'g_map', [1, 2, 3], [4])
 
+# second/third parameter W selects the rendering ({} / {:?} / {:#?}) or the iterator kind: one per obligation
+fam('c19_map c19_set', 'g_fmt', [(n, w) for n in (0, 1, 2) for w in (0, 1, 2)], [(3, w) for w in (0, 1, 2)], lto=True, unwind=lambda c: 8)
+fam('c19_map_iters', 'g_fmt', [(1, w) for w in range(9)], [(n, w) for n in (2, 3) for w in range(9)], lto=True, unwind=lambda c: 8)
+fam('c19_set_iters', 'g_fmt', [(1, 1, w) for w in range(3)], [(1, 1, 3)] + [(n, m, w) for (n, m) in ((2, 1), (2, 2)) for w in range(4)], lto=True, unwind=lambda c: 8)   # w=3 (symmetric_difference): 6 min -> thorough
+
 # --------------------------------------------------------------------------------------- properties
 PROPS = {
+    'C19': dict(fams='c19_map c19_set c19_map_iters c19_set_iters'),
     'C02': dict(fams='c01_insert c01_insert_kv c01_checked_insert c01_lookup c01_remove c01_remove_entry c01_retain c01_clear c01_drain_all '
                      'c10_into_iter c10_into_keys c10_into_values c10_set_into_iter c10_drain c10_set_drain '
                      'c07_insert c07_replace c07_remove c07_take c07_retain c07_clear c07_drain c07_extend c11_or c11_variants c11_key_and_modify c16_from_iter'),
@@ -192,7 +199,7 @@ def obligations(prop, tier):
             for c in caps:
                 h = f + ''.join('_%d' % x for x in c)
                 u = d['unwind'](c) if callable(d['unwind']) else d['unwind']
-                obs.append(Ob(h, d['group'], profile=prof, deep=deep, family=f, unwind=u))
+                obs.append(Ob(h, d['group'], profile=prof, deep=deep, family=f, unwind=u, lto=d['lto']))
     return obs
 
 
@@ -216,4 +223,6 @@ TIERS = {
     'quick': dict(timeout=240, mem_gb=8, max_unwind=14),
     'thorough': dict(timeout=1200, mem_gb=12, max_unwind=30),
 }
+# the formatting harnesses compare 40-byte buffers
+PROP_CAPS = {'C19': dict(max_unwind=44, timeout=600)}
 NA = {}
